@@ -168,6 +168,7 @@ type Path struct {
 	uuidCalls int
 	tokenSeq  int
 	atomicVC  VC
+	atomicVCFull VC
 }
 
 func newPath(eng *Engine, pf *Portfolio, h *HarnessRun, script []int) *Path {
